@@ -221,6 +221,41 @@ mod verif_nx_pipeline {
         n
     }
 
+    // C11 on statements long enough to wrap, incl. multi-line strings with code after the closing quotes, under lf and crlf
+    #[test]
+    fn verif_nx_pipeline_wrap_limit() {
+        let stmts = [
+            "Foo(Bar, Baz + 1, 'lit', Qux.Quux(1, 2, 3), AVeryLongIdentifierName, AnotherVeryLongIdentifierName);",
+            "S := '''\n    abc\n    '''.Replace(AAA, BBB);",
+            "Result := Alpha + Beta * (Gamma - Delta) + Epsilon.Zeta(Eta, Theta) + Iota;",
+            "if (A = B) and (C <> D) or (E < F) then G := H + I + J + K;",
+            "X := '''\n  q\n  ''' + Y + Z.W(1, 2);",
+        ];
+        let mut n = 0u64;
+        for crlf in [false, true] {
+            let wide = leak(config(false, 2, 2, crlf, 200, false));
+            for s1 in stmts { for s2 in stmts {
+                let p = format!("procedure P;\nbegin\n{s1}\n{s2}\nend;");
+                let (w, _) = fmt(wide, &p, Vec::new());
+                let nl = if crlf { "\r\n" } else { "\n" };
+                let mut prev_lines = usize::MAX;
+                for limit in (16..=100u32).step_by(3) {
+                    let narrow = leak(config(false, 2, 2, crlf, limit, false));
+                    let (o, _) = fmt(narrow, &p, Vec::new());
+                    if w.split(nl).all(|l| l.len() as u32 <= limit) {
+                        assert!(o == w, "OB pipeline/limit_not_style: a result for a wider limit that already fits the narrower limit is also the result for the narrower limit\n input={:?} limit={} crlf={}\n wide={:?}\n narrow={:?}", p, limit, crlf, w, o);
+                    }
+                    let lines = o.split(nl).count();
+                    assert!(lines <= prev_lines, "OB pipeline/wider_never_more_lines: widening wrap_column never increases the number of lines\n input={:?} limit={} crlf={} lines={} previous={}", p, limit, crlf, lines, prev_lines);
+                    prev_lines = lines;
+                    n += 1;
+                }
+            }}
+        }
+        println!("NX pipeline_wrap_limit: {} cases", n);
+        assert!(n > 1_000, "enumeration ran");
+    }
+
     // C09 third clause: the line endings of the INPUT do not matter (inputs without line-spanning tokens), also for
     // malformed lines such as an unterminated literal or a comment at the end of a line
     #[test]
